@@ -317,6 +317,24 @@ func runReplay(c *Ctx, path string) int {
 			suite = &s
 		}
 	}
+	if suite != nil && suite.Custom != nil {
+		// a suite that runs itself (locks, races, large responses): run it again with the seed of
+		// the file and say whether the same finding shows again
+		c.Seed = r.Seed
+		again := false
+		for _, f := range suite.Custom(c) {
+			if f.Signature == r.Signature {
+				again = true
+				fmt.Printf("replay: %s %s: %s\n", r.Property, f.Signature, f.Note)
+			}
+		}
+		if again {
+			fmt.Printf("VIOLATION property=%s replay=%s\n", r.Property, path)
+			return 1
+		}
+		fmt.Printf("replay: suite %q of %s ran again with seed %d; the finding %q did not show\n", r.Suite, r.Property, r.Seed, r.Signature)
+		return 0
+	}
 	if suite == nil || suite.MkExec == nil {
 		fmt.Printf("replay: suite %q of %s is not line-replayable; see the note in the file\n", r.Suite, r.Property)
 		return 2
